@@ -370,6 +370,17 @@ def MAXSIZE : Nat := 9223372036854775807
 inductive FragKind where | semantic | visual | other
   deriving DecidableEq, Repr
 
+/-- `loader.core.SEMANTIC_EXTS` / `VISUAL_EXTS` (sorted); re-read from the module on every run -/
+def semanticExtsList : List Str :=
+  [".capella".toList, ".capellafragment".toList, ".melodyfragment".toList, ".melodymodeller".toList]
+def visualExtsList : List Str := [".aird".toList, ".airdfragment".toList]
+
+/-- `ModelFile.fragment_type` from the file name's suffix -/
+def fragKindOfSuffix (suffix : Str) : FragKind :=
+  if semanticExtsList.contains suffix then .semantic
+  else if visualExtsList.contains suffix then .visual
+  else .other
+
 /-- `ModelFile.write_xml`: 80 columns for semantic fragments, `sys.maxsize` otherwise;
 siblings on; the XML declaration in front. -/
 def writeXml (k : FragKind) (d : Doc) : Str :=
